@@ -92,7 +92,19 @@ func CoqLeaf(l Leaf) string {
 }
 
 // CoqDval prints a destination value of the type belonging to node n.
-func CoqDval(v reflect.Value, n *Node) string {
+// CoqDval renders a Go value as the model's dval along the schema.  A value whose Go type does not
+// fit the schema node (only a broken implementation hands one to a callback) renders as an opaque
+// value no model value equals, so the case is reported instead of crashing the harness.
+func CoqDval(v reflect.Value, n *Node) (out string) {
+	defer func() {
+		if r := recover(); r != nil {
+			out = "(DOpaque 4242)"
+		}
+	}()
+	return coqDval(v, n)
+}
+
+func coqDval(v reflect.Value, n *Node) string {
 	switch n.Kind {
 	case KString, KCustom, KPre:
 		return "(DStr " + CoqStr(v.String()) + ")"
